@@ -412,6 +412,21 @@ class Reconfigure:
             return self.referenced_branch.base
         raise NoBindLocation(self.controldir)
 
+    def _fetch_tree_parents(self, to_repository, from_repository):
+        """Copy the revisions the working tree refers to.
+
+        Its pending merges (and its basis, when the tree is not at the branch
+        tip) are named by the tree only, so fetching the branch tip leaves
+        them behind; the next commit would then record them as ghosts.
+        """
+        if self.tree is None or self._destroy_tree:
+            return
+        for revision_id in self.tree.get_parent_ids():
+            if not to_repository.has_revision(
+                revision_id
+            ) and from_repository.has_revision(revision_id):
+                to_repository.fetch(from_repository, revision_id)
+
     def apply(self, force=False):
         """Apply the reconfiguration.
 
@@ -440,6 +455,7 @@ class Reconfigure:
                 repo.fetch(
                     self.local_branch.repository, self.local_branch.last_revision()
                 )
+                self._fetch_tree_parents(repo, self.local_branch.repository)
         else:
             repo = self.repository
         if self._create_branch and self.referenced_branch is not None:
@@ -447,8 +463,13 @@ class Reconfigure:
                 self.referenced_branch.repository,
                 self.referenced_branch.last_revision(),
             )
+            self._fetch_tree_parents(repo, self.referenced_branch.repository)
         if self._create_reference:
             reference_branch = branch.Branch.open(self._select_bind_location())
+            if not self._destroy_repository and self.repository is not None:
+                self._fetch_tree_parents(
+                    reference_branch.repository, self.repository
+                )
         if self._destroy_repository:
             if self._create_reference:
                 reference_branch.repository.fetch(self.repository)
